@@ -17,7 +17,7 @@ PROP = {
              "vs the model, direct round-trip oracle (key offset-roundtrip); (3a) the extension layer: SnakeData / Bytes / Text / TextComment / "
              "FixedLengthText and the 16 bodies holding them, 25 (300 thorough) values each with snake lengths 0, < 400, 900..1040, "
              "1023, 1024, 2046..2048, > 3069 bits (so that, after the fields written before, the data ends before / exactly at / "
-             "after the cell boundary and spills into 1, 2, 3 chained cells) and byte strings of 0, 1, 126, 127, 255 bytes; (4) VM stacks of depth 0,1,2..5,12..41 whose entries are nulls, tiny ints and "
+             "after the cell boundary and spills into 1, 2, 3 chained cells) and byte strings of 0, 1, 126, 127, 255 bytes, random bytes as well as text with 2-, 3- and 4-byte UTF-8 runes; (4) VM stacks of depth 0,1,2..5,12..41 whose entries are nulls, tiny ints and "
              "257-bit ints at their boundaries, cells, builders and cell slices (windows st_bits..end_bits / st_ref..end_ref over cells "
              "with 0, 1..8, up to 1023 data bits and 0..4 references: full, empty at either end, empty inside, partial); (4b) the "
              "cursor family: for every type holding a bit string or a cell (MsgAddress extern/var, Any, ^Cell, cell slices; 120 "
@@ -67,7 +67,7 @@ META = {
              "The extracted model reproduces tlb.Marshal's cells and tlb.Unmarshal's values exactly on ~6.3k (quick) / ~43k "
              "(thorough) generated cases incl. all integer widths at their boundaries and the messages/transactions of the testdata blocks."),
     'design_ref': 'DESIGN.md §6 C03/C04, §7 F6 F7 F9 F19 F20',
-    'note': ("Repairs: F9 (Transaction.MarshalTLB added; tlb.Marshal(Transaction) used to panic), F6/F7 earlier, F19 by the C05 builder. "
+    'note': ("Repairs: F9 (Transaction.MarshalTLB added; tlb.Marshal(Transaction) used to panic), raw \"Cell\" jetton/NFT payloads encoded inline used to replace the enclosing cell (abi/jetton.go, abi/nfts.go), F6/F7 earlier, F19 by the C05 builder. "
              "Not covered: 59 opaque + 35 decode-only types (listed per run by C03_gen.v). Trusted: Coq kernel, extraction, drivers, "
              "the reflect walk of harness/tlbdesc (its output is what the model interprets and is cross-checked by every case), C06 "
              "refinement of bit strings."),
